@@ -25,6 +25,8 @@
 (*                   2 / n columns for the 2-D-only contours                              *)
 (*          fitted : FALSE = the operation is applied to the constructed, unfitted model  *)
 (*          opt    : "given" | "omitted"  the other optional arguments (HDC deltas)       *)
+(*          skind  : "any" | "Width" | "Number" | "Points"  which slicer class carries    *)
+(*                   the unknown option, skw : its name ("bogus" = no slicer knows it)    *)
 (* Stages are numbered construct 1 < slice 2 < fit 3 < compute 4; 5 = a result exists.   *)
 EXTENDS Integers, Sequences, FiniteSets, Fix
 
@@ -37,7 +39,17 @@ Bases == << <<Absent>>,
             <<Absent, 0, 1, 2>>, <<Absent, 0, 0, 1>>, <<Absent, Absent, 1, 0>> >>
 
 OkOp(kind) == [kind |-> kind, arg |-> "Ok", pos |-> 0]
-DefaultCtx == [fixed |-> -1, sample |-> "none", fitted |-> TRUE, opt |-> "given"]
+DefaultCtx == [fixed |-> -1, sample |-> "none", fitted |-> TRUE, opt |-> "given",
+               skind |-> "any", skw |-> "bogus"]
+
+(* documented constructor options of the three slicers; an option of a SIBLING slicer is  *)
+(* as unknown to a slicer as a bogus name                                                 *)
+SlicerKinds == {"Width", "Number", "Points"}
+CommonOptions == {"min_n_points", "min_n_intervals"}
+OwnOptions(k) == CASE k = "Width"  -> {"width", "reference", "right_open", "value_range"}
+                   [] k = "Number" -> {"n_intervals", "reference", "include_max", "value_range"}
+                   [] k = "Points" -> {"n_points", "reference", "last_full"}
+ForeignOptions(k) == (UNION {OwnOptions(j) : j \in SlicerKinds}) \ OwnOptions(k)
 BaseCase(b, op, fitkind) ==
     [b |-> b, n |-> Len(Bases[b]),
      dims |-> [i \in 1..Len(Bases[b]) |->
@@ -91,6 +103,8 @@ InDomain(c) ==
     /\ (~c.ctx.fitted => c.fit.kind \in {"None", "Ok"} /\ c.data = "Ok")
     /\ (c.ctx.sample # "none" => c.op.kind \in TwoDimOnly)
     /\ (c.ctx.opt # "given" => c.op.kind = "hdc")
+    /\ (c.ctx.skind # "any" => /\ \E i \in 1..c.n : c.dims[i].slicer = "UnknownKwarg"
+                                /\ (c.ctx.skw = "bogus" \/ c.ctx.skw \in ForeignOptions(c.ctx.skind)))
 
 Documented == {"ValueError", "TypeError", "RuntimeError", "NotImplementedError"}
 
@@ -199,7 +213,7 @@ Pairs(BS) ==
               mm \in {x \in Malformations(b) \X Malformations(b) :
                          Key(x[1]) < Key(x[2]) /\ Field(x[1]) # Field(x[2])}} : b \in BS}
 (* the contexts in which a well-formed case / a single malformation is additionally run *)
-Ctx(fx, sm, ft, op) == [fixed |-> fx, sample |-> sm, fitted |-> ft, opt |-> op]
+Ctx(fx, sm, ft, op) == [DefaultCtx EXCEPT !.fixed = fx, !.sample = sm, !.fitted = ft, !.opt = op]
 Contexts(c) ==
     {DefaultCtx}
     \cup (IF Len(c.mal) = 1 /\ c.fit.kind \in FitAtNames /\ c.dims[c.fit.pos + 1].cond = Absent
@@ -212,14 +226,21 @@ Contexts(c) ==
     \cup (IF Len(c.mal) = 1 /\ c.op.kind = "hdc" /\ c.op.arg \in {"HdcLimitsShort", "HdcLimitsLong",
                                                                   "HdcLimitsNotPair", "HdcLimitsScalar"}
           THEN {Ctx(-1, "none", TRUE, "omitted"), Ctx(-1, "none", FALSE, "omitted")} ELSE {})
-InContexts(S) == UNION {{[c EXCEPT !.ctx = x] : x \in Contexts(c)} : c \in S}
+SlicerCtxs(c) ==      \* every slicer class x (a bogus name and every option only a sibling knows)
+    IF Len(c.mal) = 1 /\ c.mal[1].name = "SlicerUnknownKwarg"
+    THEN UNION {{[DefaultCtx EXCEPT !.skind = k, !.skw = o] : o \in {"bogus"} \cup ForeignOptions(k)} :
+                 k \in SlicerKinds}
+    ELSE {}
+InContexts(S) == UNION {{[c EXCEPT !.ctx = x] : x \in Contexts(c) \cup SlicerCtxs(c)} : c \in S}
 AllCases(BS, PairBS) == InContexts(GoodCases(BS) \cup Singles(BS)) \cup Pairs(PairBS)
 
 ----------------------------------------------------------------------------
 (* the checks as the code performs them, in its order: first exception class per stage   *)
 (* ("none" = the stage passes).  hc = FALSE models the deviation D10 "no hierarchy check" *)
-ConstructExc(c, hc) ==
-    IF \E i \in 1..c.n : c.dims[i].slicer = "UnknownKwarg" THEN "TypeError"       \* building the slicer
+ConstructExc(c, hc, sc) ==
+    IF (\E i \in 1..c.n : c.dims[i].slicer = "UnknownKwarg")
+       /\ ~(sc = "slicerkw" /\ c.ctx.skw = "value_range")    \* deviation: option hoisted into the base class
+    THEN "TypeError"                                                             \* building the slicer
     ELSE IF \E i \in 1..c.n :                                                  \* _check_dist_descriptions
               LET dm == c.dims[i] IN
                 \/ dm.dist = "Missing"
